@@ -41,6 +41,16 @@ func (d *Decl) argIdx(n string) int {
 	return -1
 }
 
+// groupLabel is the abstract letter of an option group: kind + the first name of each member
+// without one leading dash (the form in which the library's group matcher prints itself).
+func (d *Decl) groupLabel(g []int) string {
+	l := "g:-"
+	for _, i := range g {
+		l += strings.TrimPrefix(d.Opts[i].Names[0], "-")
+	}
+	return l
+}
+
 func (d *Decl) ContainerName(i int) string {
 	if i < len(d.Opts) {
 		return d.Opts[i].Key
@@ -253,19 +263,20 @@ func (p *specParser) atom() (*Node, error) {
 			n = &Node{Op: NOptional, Kids: []*Node{s}}
 		}
 	case t == "--":
-		return &Node{Op: NEnd, Text: "--"}, nil
+		return &Node{Op: NEnd, Text: "e:--"}, nil
 	case t == "OPTIONS":
-		g := &Node{Op: NGroup, Text: "OPTIONS"}
+		g := &Node{Op: NGroup}
 		for i := range p.d.Opts {
 			g.Group = append(g.Group, i)
 		}
+		g.Text = p.d.groupLabel(g.Group)
 		n = g
 	case strings.HasPrefix(t, "--"):
 		i := p.d.optByName(t)
 		if i < 0 {
 			return nil, fmt.Errorf("undeclared %s", t)
 		}
-		n = &Node{Op: NOpt, Idx: i, Text: "-" + p.d.Opts[i].Key}
+		n = &Node{Op: NOpt, Idx: i, Text: "o:" + p.d.Opts[i].Names[0]}
 		if strings.HasPrefix(p.peek(), "=<") {
 			p.p++
 		}
@@ -274,12 +285,12 @@ func (p *specParser) atom() (*Node, error) {
 		if i < 0 {
 			return nil, fmt.Errorf("undeclared %s", t)
 		}
-		n = &Node{Op: NOpt, Idx: i, Text: "-" + p.d.Opts[i].Key}
+		n = &Node{Op: NOpt, Idx: i, Text: "o:" + p.d.Opts[i].Names[0]}
 		if strings.HasPrefix(p.peek(), "=<") {
 			p.p++
 		}
 	case strings.HasPrefix(t, "-") && len(t) > 2:
-		g := &Node{Op: NGroup, Text: t}
+		g := &Node{Op: NGroup}
 		for k := 1; k < len(t); k++ {
 			i := p.d.optByName("-" + t[k:k+1])
 			if i < 0 {
@@ -287,13 +298,14 @@ func (p *specParser) atom() (*Node, error) {
 			}
 			g.Group = append(g.Group, i)
 		}
+		g.Text = p.d.groupLabel(g.Group)
 		n = g
 	case t[0] >= 'A' && t[0] <= 'Z':
 		i := p.d.argIdx(t)
 		if i < 0 {
 			return nil, fmt.Errorf("undeclared %s", t)
 		}
-		n = &Node{Op: NArg, Idx: i, Text: t}
+		n = &Node{Op: NArg, Idx: i, Text: "a:" + t}
 	default:
 		return nil, fmt.Errorf("unexpected %q", t)
 	}
@@ -675,4 +687,33 @@ func BindTextOf(d *Decl, lists [][]string) string {
 		sb.WriteString("] ")
 	}
 	return sb.String()
+}
+
+// Optionalise returns a copy of the spec in which every single-option atom of an
+// option in opts is optional (an environment value satisfies it); with groupsToo,
+// every option group containing such an option is optional as well.
+func Optionalise(n *Node, opts map[int]bool, groupsToo bool) *Node {
+	switch n.Op {
+	case NOpt:
+		if opts[n.Idx] {
+			return &Node{Op: NOptional, Kids: []*Node{n}}
+		}
+		return n
+	case NGroup:
+		if groupsToo {
+			for _, o := range n.Group {
+				if opts[o] {
+					return &Node{Op: NOptional, Kids: []*Node{n}}
+				}
+			}
+		}
+		return n
+	case NArg, NEnd:
+		return n
+	}
+	c := &Node{Op: n.Op, Idx: n.Idx, Text: n.Text}
+	for _, k := range n.Kids {
+		c.Kids = append(c.Kids, Optionalise(k, opts, groupsToo))
+	}
+	return c
 }
